@@ -7,7 +7,8 @@
         -> bail | info <info'> <cerr> <csilent> <cio> verified=<0|1> damaged=<0|1>
    apply <now> <bits sel> <flags per position: 4 chars e s i u, or ->* <info>*   (same length lists)
         -> infos <info'>*
-   word <info> -> time bad rehash justsynced *)
+   word <info> -> time bad rehash justsynced
+   NUMBER = decimal digits of any length, optionally preceded by '-' (strtoul semantics) *)
 open C15_ext
 
 let rec pos_of_int i = if i = 1 then XH else if i land 1 = 0 then XO (pos_of_int (i lsr 1)) else XI (pos_of_int (i lsr 1))
@@ -21,9 +22,19 @@ let bit x = if x then "1" else "0"
 
 let kind_name = function SCRUB_AUTO -> "auto" | SCRUB_BAD -> "bad" | SCRUB_NEW -> "new" | SCRUB_FULL -> "full" | SCRUB_EVEN -> "even"
 
+(* decimal digits of any length -> N (strtoul's value before saturation); "-k" -> 2^64 - k as strtoul negates *)
+let n_of_digits s =
+  String.iter (fun c -> if c < '0' || c > '9' then failwith "digits") s;
+  if s = "" then failwith "digits";
+  let r = ref N0 in
+  String.iter (fun c -> r := N.add (N.mul !r (n_of_int 10)) (n_of_int (Char.code c - 48))) s; !r
+let n_of_number s =
+  if String.length s > 1 && s.[0] = '-' then N.sub (n_of_digits "18446744073709551616") (n_of_digits (String.sub s 1 (String.length s - 1)))
+  else n_of_digits s
+
 let arg_of s = match s with
   | "default" -> Some ArgDefault | "bad" -> Some ArgBad | "new" -> Some ArgNew | "full" -> Some ArgFull
-  | _ -> parse_plan_number (n_of_int (int_of_string s))
+  | _ -> parse_plan_number (n_of_number s)
 
 let block_of = function 'E' -> BLOCK_EMPTY | 'B' -> BLOCK_BLK | 'C' -> BLOCK_CHG | 'R' -> BLOCK_REP | _ -> BLOCK_DELETED
 let state_of = function 'D' -> TASK_DONE | 'e' -> TASK_ERROR_CONTINUE | 'i' -> TASK_IOERROR_CONTINUE | 'E' -> TASK_ERROR | _ -> TASK_IOERROR
@@ -41,8 +52,7 @@ let () =
         (match toks.(0) with
          | "plan" ->
            let t = { force_scrub_even = (toks.(1) = "1"); force_scrub_at = n_of_int (int_of_string toks.(2)) } in
-           let older = if toks.(4) = "-" then Some None
-             else (match parse_older_number (n_of_int (int_of_string toks.(4))) with Some d -> Some (Some d) | None -> None) in
+           let older = if toks.(4) = "-" then Some None else parse_older_number (n_of_number toks.(4)) in
            let now = z_of_int (int_of_string toks.(5)) in
            let infos = List.map (fun s -> n_of_int (int_of_string s)) (sub toks 6 (Array.length toks - 6)) in
            (match arg_of toks.(3), older with
